@@ -383,6 +383,7 @@ func Run(r *common.Run) error {
 	// corpus first
 	r.Mark("case corpus")
 	zeroFormCase(c)
+	binContentIDCase(c)
 	for _, w := range witnessDocs {
 		if e := find(w.typ); e != nil {
 			c.xmlCase(e, []byte(w.doc), "corpus")
